@@ -6,6 +6,7 @@ import Driver.Transform
 import BtcModel.Model.TxCodec
 import BtcModel.Model.Endpoints
 import BtcModel.Model.BlockCodec
+import BtcModel.Spec.FeeSpec
 
 open Btc
 
@@ -34,6 +35,8 @@ structure DState where
   lastPopped : Nat := 0
   /-- number of blocks on which the model's own decoding disagreed with the library's -/
   codecBad : Nat := 0
+  /-- F13 precondition: the stability threshold was RAISED while the anchor's ingestion was paused -/
+  thrRaisedWhilePaused : Bool := false
 
 def statusCode : Watchdog.Status → Nat
   | .notEnoughData => 0 | .ok => 1 | .ahead => 2 | .behind => 3
@@ -177,11 +180,16 @@ def stepCanister (d : DState) (ws : List String) : DState × String :=
       let popped := match Tree.chainWithTip CBlock.hash s'.unstable.tree.root.hash s.unstable.tree with
         | some (p, _) => (p.dropLast).map (·.blk)
         | none => []
-      ({ d with st := some s', ghost := d.ghost ++ popped }, s!"{o} | {summary s'}")
+      ({ d with st := some s', ghost := d.ghost ++ popped,
+                thrRaisedWhilePaused := d.thrRaisedWhilePaused && s'.utxos.ingesting.isSome },
+        s!"{o} | {summary s'}")
     match s.heartbeatStart (envOf d) budget.toNat! with
     | .trap =>
-      -- specification (C09/C08): a heartbeat never traps on a state reached from valid inputs
-      (d, "trap | - ## done-or-await ## F13")
+      -- specification (C09/C08): a heartbeat never traps on a state reached from valid inputs.
+      -- Known finding F13: exactly the traps of a heartbeat that resumes a paused ingestion after
+      -- the threshold was raised during the pause.
+      (d, "trap | - ## done-or-await" ++
+        (if d.thrRaisedWhilePaused && s.utxos.ingesting.isSome then " ## F13" else ""))
     | .ingested s' _ => finish s' "done"
     | .processed s' => finish s' "done"
     | .awaiting s' r => finish s' s!"await {showRequest r}"
@@ -199,6 +207,7 @@ def stepCanister (d : DState) (ws : List String) : DState × String :=
     let cfg : Option State.SetConfig :=
       if arg.startsWith "thr=" then some { stabilityThreshold := some (dropPrefix arg 4).toNat! } else none
     let s' := s.upgrade cfg
+    let raised := s.utxos.ingesting.isSome && s'.unstable.thr > s.unstable.thr
     -- C09: the labelled answers of every query endpoint before and after
     let obsVec (st : State) : List (String × String) :=
       let guarded (o : String) : String := if (st.guard (envOf d) st.network true).isSome then "trap" else o
@@ -212,7 +221,8 @@ def stepCanister (d : DState) (ws : List String) : DState × String :=
     let same := match ((obsVec s).zip (obsVec s')).find? (fun p => p.1.2 != p.2.2) with
       | none => "same=1:-"
       | some p => s!"same=0:{p.1.1}"
-    ({ d with st := some s' }, s!"ok | {summary s'} | {same} ## ok | {summary s'} | same=1:-")
+    ({ d with st := some s', thrRaisedWhilePaused := d.thrRaisedWhilePaused || raised },
+      s!"ok | {summary s'} | {same} ## ok | {summary s'} | same=1:-")
   | ["setcfg", kv], some s =>
     let v := kv.endsWith "=1"
     let cfg : State.SetConfig :=
@@ -222,17 +232,20 @@ def stepCanister (d : DState) (ws : List String) : DState × String :=
       else if kv.startsWith "lazy=" then { lazyFees := some v }
       else if kv.startsWith "thr=" then { stabilityThreshold := some (dropPrefix kv 4).toNat! }
       else {}
-    ({ d with st := some (s.setConfig cfg) }, "-")
+    let s' := s.setConfig cfg
+    ({ d with st := some s',
+              thrRaisedWhilePaused := d.thrRaisedWhilePaused ||
+                (s.utxos.ingesting.isSome && s'.unstable.thr > s.unstable.thr) }, "-")
   | ["call", ep, net, avail, ins, tok, cc, start], some s =>
-    let (s', text, acc) := endpointCall d s ep (parseNet net) avail.toNat! ins.toNat! (parseAddrArg tok) cc.toNat! start.toNat!
+    let (s', text, acc) := endpointCall d s ep (parseNetInRequest net) avail.toNat! ins.toNat! (parseAddrArg tok) cc.toNat! start.toNat!
     ({ d with st := some s' }, s!"{text} accepted={acc} unchanged=1")
   | ["sendtx", net, avail, payload], some s =>
     let bytes := if payload == "-" then [] else hexToBytes payload
     -- well-formedness decided by the model's own consensus decoder (64-bit `usize`: native harness)
     let wf := (Btc.TxCodec.decodeExact bytes).isSome
-    match s.callSendTransaction (envOf d) (parseNet net) avail.toNat! bytes.length wf with
+    match s.callSendTransaction (envOf d) (parseNetInRequest net) avail.toNat! bytes.length wf with
     | .trap t => (d, s!"{showTrap t} accepted=0 counted=0 forwarded=none")
-    | .answered true acc s' => ({ d with st := some s' }, s!"ok accepted={acc} counted=1 forwarded={net}:same")
+    | .answered true acc s' => ({ d with st := some s' }, s!"ok accepted={acc} counted=1 forwarded={showNet (parseNetInRequest net)}:same")
     | .answered false acc _ => (d, s!"err MalformedTransaction accepted={acc} counted=0 forwarded=none")
   | ["q", "synced"], some s => (d, if s.isSynced Btc.Gen.syncedThreshold then "1" else "0")
   | ["init", net, thr, blk, raw], _ =>
@@ -274,9 +287,14 @@ def stepCanister (d : DState) (ws : List String) : DState × String :=
     let d' := match res with
       | .ok r =>
         -- specification (C06/C01): the whole walk must deliver the ledger state at this first tip
-        let expected := match fullChainTo d.ghost s r.tipHash with
-          | some chain => canonUtxos (Spec.ledgerFor a chain)
-          | none => "unknown-tip"
+        let expectedL := match fullChainTo d.ghost s r.tipHash with
+          | some chain => some (Spec.ledgerFor a chain)
+          | none => none
+        -- F11 concerns exactly the answers that contain an output index >= 256
+        let big := match expectedL with | some l => l.any (fun u => u.outpoint.vout ≥ 256) | none => false
+        let expected := (match expectedL with
+          | some l => canonUtxos l
+          | none => "unknown-tip") ++ (if big then " big" else "")
         match r.nextPage with
         | some tok => { d with walk := some (a, lim.toNat!, tok, (r.tipHeight, r.tipHash), r.utxos, true, expected) }
         | none => { d with walk := some (a, lim.toNat!, (0, 0, ⟨0, 0⟩), (r.tipHeight, r.tipHash), r.utxos, true, expected) }
@@ -284,7 +302,7 @@ def stepCanister (d : DState) (ws : List String) : DState × String :=
     (d', showUtxosResult res)
   | ["walk", "next"], some s =>
     match d.walk with
-    | none => (d, "bad-op")
+    | none => (d, "no-walk")
     | some (a, lim, tok, tip, coll, same, expected) =>
       let res := s.getUtxos (.ok a) (.page (some tok)) lim
       match res with
@@ -295,14 +313,16 @@ def stepCanister (d : DState) (ws : List String) : DState × String :=
       | _ => ({ d with walk := none }, showUtxosResult res)
   | ["walk", "done"], some _ =>
     match d.walk with
-    | none => (d, "bad-op")
-    | some (_, _, _, tip, coll, same, expected) =>
+    | none => (d, "no-walk")
+    | some (_, _, _, tip, coll, same, expected0) =>
+      let big := expected0.endsWith " big"
+      let expected := if big then (expected0.dropRight 4) else expected0
       let desc := decide (coll.Pairwise (fun x y => x.height ≥ y.height))
       let nodup := decide ((coll.map (·.outpoint)).Nodup)
       let b (x : Bool) : Nat := if x then 1 else 0
       -- known finding F11: outputs with vout >= 256 of one transaction are ordered differently in the
       -- stable index (little-endian bytes) and on the unstable side (numerically)
-      let f11 := coll.any (fun u => u.outpoint.vout ≥ 256) || (expected.splitOn ":25").length > 1 || (expected.splitOn ":26").length > 1 || (expected.splitOn ":27").length > 1 || (expected.splitOn ":28").length > 1 || (expected.splitOn ":29").length > 1
+      let f11 := coll.any (fun u => u.outpoint.vout ≥ 256) || big
       ({ d with walk := none },
         s!"{tip.1} {canonUtxos coll} desc={b desc} nodup={b nodup} sametip={b same} ## {tip.1} {expected} desc=1 nodup=1 sametip=1" ++ (if f11 then " ## F11" else ""))
   | ["pausedsame", addrs], some s =>
@@ -369,6 +389,13 @@ def stepCanister (d : DState) (ws : List String) : DState × String :=
     match s.feePercentiles Btc.Gen.numTransactions with
     | none => (d, "trap")
     | some (s', p) => ({ d with st := some s' }, showNatList p)
+  | ["q", "feesn", n], some s =>
+    -- C15: the fee rates that are ranked, for a caller-chosen number of transactions (hook);
+    -- specification column: the rates computed from the history alone (`Spec.recentFeeRates`)
+    let model := match s.feesPerByte n.toNat! s.unstable.mainChain.reverse [] with
+      | some l => showNatList l
+      | none => "trap"
+    (d, model ++ " ## " ++ showNatList (Spec.recentFeeRates n.toNat! d.ghost (Spec.bestChain s)))
   | ["snap"], some s => (d, snapshot s)
   | ["digest"], some s => (d, digest s)
   -- specification lines: the model column is the specification itself
